@@ -16,7 +16,9 @@ import (
 // Rng is a small deterministic PRNG (splitmix64).
 type Rng struct{ s uint64 }
 
-func NewRng(seed uint64) *Rng { return &Rng{s: seed*0x9e3779b97f4a7c15 + 0x1234567} }
+// NewRng seeds a generator; the seed is mixed first so that nearby seeds give
+// unrelated streams.
+func NewRng(seed uint64) *Rng { return &Rng{s: Mix(seed ^ 0x1234567)} }
 
 func Mix(x uint64) uint64 {
 	x += 0x9e3779b97f4a7c15
